@@ -501,6 +501,11 @@ fn main() {
                     }
                     let is_fut = matches!(&tyv, Type::Path(p) if p.path.segments.last().map(|s| s.ident == "ExtFut").unwrap_or(false));
                     pt.ty = Box::new(tyv.clone());
+                    // `_: T` parameters are rejected by Verus
+                    if let Pat::Wild(_) = &*pt.pat {
+                        let id = Ident::new(&format!("_p{}", new_inputs.len()), proc_macro2::Span::call_site());
+                        pt.pat = Box::new(parse_quote!(#id));
+                    }
                     // `mut x: T` → `x: T` + `let mut x = x;`
                     if let Pat::Ident(pi) = &mut *pt.pat {
                         let name = pi.ident.clone();
